@@ -35,6 +35,9 @@ type rCase struct {
 	Archs []rArch  `json:"archs"`
 	World []string `json:"world"`
 	Multi bool     `json:"multi,omitempty"` // resolve every arch with all archs as siblings
+	// further worlds resolved afterwards over the SAME index objects (each through a fresh NewPkgResolver, i.e.
+	// a clone from the process-wide resolver cache): a resolution must not depend on what was resolved before
+	Extra [][]string `json:"extra,omitempty"`
 }
 
 func xs(s string) string { return "x" + hx(s) }
@@ -382,14 +385,25 @@ func (s resolverSuite) Gen(r *Rng, i int, tier string) any {
 	g, indexes := genUniverse(r, tier == "thorough" && r.Chance(40))
 	world := genWorld(g, indexes)
 	if s.name != "multiarch" {
-		return rCase{Archs: []rArch{{Arch: "x86_64", Indexes: indexes}}, World: world}
+		c := rCase{Archs: []rArch{{Arch: "x86_64", Indexes: indexes}}, World: world}
+		for k := r.Intn(3); k > 0; k-- {
+			c.Extra = append(c.Extra, genWorld(g, indexes))
+		}
+		return c
 	}
 	n := r.Range(2, 3)
 	if r.Chance(10) {
 		n = 4
 	}
 	names := []string{"x86_64", "aarch64", "riscv64", "ppc64le"}
+	if r.Chance(40) {
+		// architectures whose apk and OCI spellings coincide first
+		names = []string{"riscv64", "x86_64", "ppc64le", "aarch64"}
+	}
 	c := rCase{World: world, Multi: true}
+	if r.Chance(50) {
+		c.Extra = append(c.Extra, genWorld(g, indexes))
+	}
 	for k := 0; k < n; k++ {
 		if k == 0 && r.Chance(50) {
 			a := rArch{Arch: names[0]}
@@ -412,6 +426,10 @@ func (s resolverSuite) Run(raw json.RawMessage) []Step {
 	}
 	var steps []Step
 	enc := encodeArchs(c.Archs)
+	steps = append(steps, s.sharedSequence(c, enc)...)
+	if s.name == "multiarch" && c.Multi && resolverE2EEligible(c) && len(raw)%3 == 0 {
+		steps = append(steps, s.e2eStep(c, enc)...)
+	}
 	for self := range c.Archs {
 		out := goResolveStable(c.Archs, self, c.World, c.Multi, 2)
 		fields := append([]string{"r.resolve", xl(c.World), xs(c.Archs[self].Arch)}, enc...)
@@ -440,6 +458,90 @@ func (s resolverSuite) Run(raw json.RawMessage) []Step {
 			f2 = append(f2, alone)
 			steps = append(steps, Step{Line: strings.Join(f2, "\t"), Go: alone, Desc: "single-arch " + desc, Tags: []string{"alone:" + strings.SplitN(alone, " ", 2)[0]}, Mode: "verdict", Trivial: alone == "err"})
 		}
+	}
+	return steps
+}
+
+// sharedSequence: one set of index objects for the whole sequence (so the process-wide resolver and
+// disqualification caches are hit): every architecture alone, then with its siblings, then the extra
+// worlds, then alone again.  Each answer must equal the model's answer for that call in isolation.
+func (s resolverSuite) sharedSequence(c rCase, enc []string) []Step {
+	if len(c.Extra) == 0 && !c.Multi {
+		return nil
+	}
+	apk.VerifResetGlobalCaches()
+	built := make([]builtArch, len(c.Archs))
+	for i, a := range c.Archs {
+		built[i] = buildArch(a)
+	}
+	type call struct {
+		self  int
+		world []string
+		multi bool
+	}
+	var calls []call
+	for self := range c.Archs {
+		if c.Multi {
+			calls = append(calls, call{self, c.World, false}, call{self, c.World, true})
+		} else {
+			calls = append(calls, call{self, c.World, false})
+		}
+		for _, w := range c.Extra {
+			calls = append(calls, call{self, w, c.Multi})
+		}
+		calls = append(calls, call{self, c.World, false})
+	}
+	var steps []Step
+	for k, cl := range calls {
+		out := resolveBuilt(built, cl.self, cl.world, cl.multi)
+		archs, e := c.Archs, enc
+		if !cl.multi {
+			archs = []rArch{c.Archs[cl.self]}
+			e = encodeArchs(archs)
+		}
+		op := "r.corr"
+		if s.name == "resolver" {
+			op = "r.resolve"
+		} else if s.name == "multiarch" {
+			op = "r.avail"
+		}
+		fields := append([]string{op, xl(cl.world), xs(c.Archs[cl.self].Arch)}, e...)
+		fields = append(fields, out)
+		steps = append(steps, Step{Line: strings.Join(fields, "\t"), Go: out, Mode: "verdict", Trivial: out == "err",
+			Desc: fmt.Sprintf("call %d of a sequence over shared index objects (multi=%v): %s", k, cl.multi, describeCase(rCase{Archs: archs, World: cl.world}, 0)),
+			Tags: []string{"sequence:" + strings.SplitN(out, " ", 2)[0]}})
+	}
+	return steps
+}
+
+// e2eStep: the same family through build.NewMultiArch + MultiArch.BuildPackageLists
+func (s resolverSuite) e2eStep(c rCase, enc []string) []Step {
+	// the world file is written sorted (SetWorld) and read back line by line (GetWorld)
+	c.World = append([]string(nil), c.World...)
+	sort.Strings(c.World)
+	res, err := resolverE2E(c)
+	if err != nil {
+		return []Step{{Line: "x.robust\te2e", Go: "setup-error: " + err.Error(), Mode: "oracle-go", GoSpec: "pass", NoImpl: true, Trivial: true, Desc: "multi-arch e2e setup failed", Tags: []string{"e2e:setup-error"}}}
+	}
+	// BuildPackageLists fails as a whole when one architecture fails: compare only when the model says all succeed
+	// or Go succeeded (then every architecture must match)
+	var steps []Step
+	allOK := true
+	for i := range c.Archs {
+		if res[i] == "err" {
+			allOK = false
+		}
+	}
+	for self := range c.Archs {
+		out := res[self]
+		op := "r.avail"
+		if !allOK {
+			op = "r.corr-any-err" // Go reported an error for the whole call: accepted iff the model errors for SOME architecture
+		}
+		fields := append([]string{op, xl(c.World), xs(c.Archs[self].Arch)}, enc...)
+		fields = append(fields, out)
+		steps = append(steps, Step{Line: strings.Join(fields, "\t"), Go: out, Mode: "verdict", Trivial: out == "err",
+			Desc: "MultiArch.BuildPackageLists: " + describeCase(c, self), Tags: []string{"e2e:" + strings.SplitN(out, " ", 2)[0]}})
 	}
 	return steps
 }
